@@ -65,40 +65,14 @@ func replyShape(fn *ssa.Function, v ssa.Value) (string, bool) {
 	if an.IsNilConst(v) {
 		return "nil", true
 	}
-	if elems, ok := chanContents(fn, v); ok {
-		var s []string
-		for _, e := range elems {
-			s = append(s, ctorShort(e))
-		}
-		return strings.Join(s, ","), true
-	}
-	mc, ok := v.(*ssa.MakeChan)
+	elems, ok := chanLiteral(fn, v, 0)
 	if !ok {
 		return "", false
 	}
-	// make + sends (some in a range loop) + deferred close, capacity checked by CHAN-DISC
-	var sends []*ssa.Send
-	closed := false
-	an.Instrs(fn, func(in ssa.Instruction) {
-		switch x := in.(type) {
-		case *ssa.Send:
-			if x.Chan == ssa.Value(mc) {
-				sends = append(sends, x)
-			}
-		case *ssa.Defer:
-			if b, ok := x.Call.Value.(*ssa.Builtin); ok && b.Name() == "close" && x.Call.Args[0] == ssa.Value(mc) {
-				closed = true
-			}
-		}
-	})
-	if !closed {
-		return "", false
-	}
-	sort.SliceStable(sends, func(i, j int) bool { return before(sends[i], sends[j]) })
 	var s []string
-	for _, sd := range sends {
-		t := ctorShort(sd.X)
-		if an.InLoop(sd.Block()) {
+	for _, e := range elems {
+		t := ctorShort(e.val)
+		if e.inLoop {
 			t += "*"
 		}
 		s = append(s, t)
